@@ -55,6 +55,22 @@ request may clear and load its target more than once (``desper.switch`` and
 history case is ``(loop, n, word)`` over the letters of
 ``loop_letters(n, loop)``.
 
+Names (parts ``fixpoint-names/<names>/...``, ``histories-names``): the
+resource is stored as ``R/K`` for the (R, K) of ``NAMES`` - handle names that
+are no identifiers (``k.png``, ``1up``, ``level-1``), start with ``__``
+(``__k__``, ``__k``), are a keyword (``class``), with or without a bystander
+handle of the other kind in the same sub-map, and a sub-map name that is no
+identifier (``r.d``).  A static map keeps such names in its ``__dict__``
+instead of a slot.  Operations: the seven without the world files (attribute
+access is spelled ``getattr(getattr(s, R), K)``).  A history case of these
+parts is ``(value, loader, word, 'plain', names)``.
+
+Parts ``loop-fixpoint/<loop>/<n>/equal`` and ``loop-histories-equal/<n>``:
+the loop parts again with handles that compare equal by value (all handles of
+the part are ``==`` one another and hash alike, as two ``@dataclass`` handles
+for one file do); every handle still owns its cache.  Case ``(loop, n, word,
+'equal')``.
+
 The driver reads handles through ``cached``, ``__call__``, ``clear()``,
 ``load()`` and the map / static-map / world-file / loop access paths only;
 the private representation of ``Handle`` enters the state key through the
@@ -128,6 +144,18 @@ RULE = ('Operations: h(), m["r/k"], m["r"]["k"], s.r.k, s["r"]["k"], '
         'every operation additionally: load() of the handle that was not '
         'addressed did not run and no delivered object is one it loaded, '
         'cached of both handles == accessed since its own last clear.  '
+        'Names (map shape plain): parts "fixpoint-names/<names>/<value>'
+        '[/raise_first]" (E1 to fixpoint; quick: value object, '
+        'thorough: every value) and "histories-names" (every one of the '
+        '7^D sequences over the operations without the world-file '
+        'accesses, D = 3 quick / 4 thorough, per value, loader and names): '
+        'the handle is stored as R/K with (R, K[, bystander]) in dotted '
+        '(r, k.png), digit (r, 1up), dash (r, level-1), dunder (r, __k__), '
+        'private (r, __k), keyword (r, class), mixed (r, k.png, bystander '
+        'k), mixed_slot (r, k, bystander k.png), map_dotted (r.d, k); the '
+        'access paths are m["R/K"], m[R][K], getattr(getattr(s, R), K), '
+        's[R][K], s.get(R).get(K)(); same oracle, plus: load() of the '
+        'bystander handle never runs.  '
         'Loop parts: a real SimpleLoop built with a dummy time function '
         '(never started) and a bare Loop subclass (only loop() supplied), n '
         'counting handles whose load() returns a fresh World(); operations '
@@ -164,7 +192,12 @@ RULE = ('Operations: h(), m["r/k"], m["r"]["k"], s.r.k, s["r"]["k"], '
         'loaded again, a target that was not to be cleared is loaded once '
         'if it was not cached and not touched otherwise; the state oracle '
         'then asks cached == False of a left handle that was to be '
-        'cleared.')
+        'cleared.  Parts "loop-fixpoint/<loop>/<n>/equal" (n = 2; thorough '
+        'also 3) and "loop-histories-equal/<n>" (quick n=2 D=3: 20^3 + '
+        '12^3; thorough n=2 D=4 and n=3 D=3): the same operations and '
+        'oracle over handles of a subclass with value equality (all '
+        'handles of the part are == one another, equal hashes, distinct '
+        'objects with their own cache).')
 
 VALUES = ('none', 'zero', 'empty_str', 'empty_list', 'object', 'eq_false',
           'eq_raises', 'bool_raises', 'eq_true', 'eq_nonbool', 'finaliser')
@@ -220,7 +253,7 @@ NAME_CLASS = {'dotted': 'key_nonslot', 'digit': 'key_nonslot',
 ODD_NAMES = tuple(n for n in NAMES if n != 'plain')
 # values of the fixpoint parts of the odd names (the histories-names part
 # takes every value)
-NAMES_FIXPOINT_VALUES = {'quick': ('none', 'object'), 'thorough': None}
+NAMES_FIXPOINT_VALUES = {'quick': ('object',), 'thorough': None}
 NAMES_DEPTH = {'quick': 3, 'thorough': 4}
 FULL_LETTERS = 'cMmaigwWx'
 BASIC_LETTERS = 'cMmaigx'
@@ -1061,6 +1094,35 @@ class WorldCountingHandle(desper.Handle):
         return super().clear()
 
 
+class EqualWorldCountingHandle(WorldCountingHandle):
+    """Handle with value equality, the way a ``@dataclass`` handle that
+    holds a file name compares: every handle of the part describes the same
+    level file, so any two of them are == (and hash alike) without being
+    the same object.  Each one still owns its cache: clear(), cached and the
+    loaded world are per object."""
+
+    hx_description = 'levels/level1.json'
+
+    def __eq__(self, other):
+        if type(other) is not type(self):
+            return NotImplemented
+        return self.hx_description == other.hx_description
+
+    def __ne__(self, other):
+        if type(other) is not type(self):
+            return NotImplemented
+        return self.hx_description != other.hx_description
+
+    def __hash__(self):
+        return hash(self.hx_description)
+
+
+# how the handles of a loop part compare: 'identity' (object.__eq__) or
+# 'equal' (all handles of the part are == one another)
+HANDLE_EQ = {'identity': WorldCountingHandle,
+             'equal': EqualWorldCountingHandle}
+
+
 # loops that catch SwitchWorld themselves ("supported by SimpleLoop and
 # similar implementations"): only they get the switch requests
 REQUEST_LOOPS = ('simple',)
@@ -1085,8 +1147,9 @@ def loop_letters(n, kind='bare'):
     return dict(zip(_LOOP_LETTERS, loop_ops(n, kind)))
 
 
-def loop_part_name(kind, n):
-    return f'loop-fixpoint/{kind}/{n}'
+def loop_part_name(kind, n, heq='identity'):
+    return f'loop-fixpoint/{kind}/{n}' + ('' if heq == 'identity'
+                                          else '/' + heq)
 
 
 class LoopDriver:
@@ -1102,17 +1165,22 @@ class LoopDriver:
     of its load() / clear() calls.
     """
 
-    def __init__(self, kind, n):
-        if kind not in LOOP_KINDS or n not in (1, 2, 3):
-            raise HarnessError(f'unknown loop part {kind!r} {n!r}')
+    def __init__(self, kind, n, heq='identity'):
+        if kind not in LOOP_KINDS or n not in (1, 2, 3) \
+                or heq not in HANDLE_EQ:
+            raise HarnessError(f'unknown loop part {kind!r} {n!r} {heq!r}')
         self.kind = kind
         self.n = n
-        self.name = loop_part_name(kind, n)
+        self.heq = heq
+        self.name = loop_part_name(kind, n, heq)
         self.alphabet = frozenset(loop_ops(n, kind))
 
     def params(self):
-        return dict(loop=self.kind, handles=self.n,
-                    ops=[list(op) for op in loop_ops(self.n, self.kind)])
+        d = dict(loop=self.kind, handles=self.n,
+                 ops=[list(op) for op in loop_ops(self.n, self.kind)])
+        if self.heq != 'identity':
+            d['handle_eq'] = self.heq
+        return d
 
     def initial(self):
         if desper.default_loop.current_world is not None:
@@ -1124,7 +1192,12 @@ class LoopDriver:
         ctx.hits = collections.Counter()
         ctx.loop = (desper.SimpleLoop(_no_clock) if self.kind == 'simple'
                     else BareLoop())
-        ctx.hs = [WorldCountingHandle(i) for i in range(self.n)]
+        ctx.hs = [HANDLE_EQ[self.heq](i) for i in range(self.n)]
+        if self.heq == 'equal' and self.n > 1 and not (
+                ctx.hs[0] == ctx.hs[1] and ctx.hs[0] is not ctx.hs[1]
+                and hash(ctx.hs[0]) == hash(ctx.hs[1])):
+            raise HarnessError('the handles of an "equal" part do not '
+                               'compare equal')
         ctx.cached = [False] * self.n
         ctx.epoch_obj = [None] * self.n
         ctx.had_epoch = [False] * self.n
@@ -1139,6 +1212,8 @@ class LoopDriver:
 
     def _features(self, op, ctx=None, prev=None):
         f = dict(path='loop', loop=self.kind, op=op[0])
+        if self.heq != 'identity':
+            f['handle_eq'] = self.heq
         if op[0] in ('switch', 'request'):
             f['flags'] = LOOP_FLAGS[(op[2], op[3])]
             f['target'] = ('first' if prev is None else
@@ -1256,6 +1331,17 @@ class LoopDriver:
                     ctx.hits['loop_request_leaves_cached'] += 1
             if traces[i].count('L') > 1:
                 ctx.hits['loop_request_two_epochs_in_one_operation'] += 1
+        if self.heq == 'equal' and kind in ('switch', 'request') \
+                and prev is not None and prev != i:
+            # leaving a handle for another one that is == to it
+            w = 'switch' if kind == 'switch' else 'request'
+            if op[2] and ctx.cached[prev]:
+                ctx.hits[f'loop_equal_{w}_clear_current'] += 1
+                if ctx.cached[i] and not op[3]:
+                    # ... which already holds its own world (preloaded)
+                    ctx.hits[f'loop_equal_{w}_clear_current_to_cached'] += 1
+            if op[3] and ctx.cached[i] and ctx.cached[prev] and not op[2]:
+                ctx.hits[f'loop_equal_{w}_clear_next_keeps_left'] += 1
         if kind == 'switch':
             if prev is None:
                 ctx.hits['loop_switch_first'] += 1
@@ -1492,18 +1578,27 @@ class LoopDriver:
 
 # (handles, length) of the exhaustive loop histories
 LOOP_DEPTH = {'quick': ((2, 4),), 'thorough': ((2, 5), (3, 4))}
+# ... with handles that compare equal (parts "loop-histories-equal/<n>")
+LOOP_EQUAL_DEPTH = {'quick': ((2, 3),), 'thorough': ((2, 4), (3, 3))}
+LOOP_EQUAL_N = {'quick': (2,), 'thorough': (2, 3)}
 
 
-def loop_history_cases(n, depth):
+def loop_history_cases(n, depth, heq='identity'):
     import itertools
-    return [(kind, n, ''.join(w)) for kind in LOOP_KINDS
+    tail = () if heq == 'identity' else (heq,)
+    return [(kind, n, ''.join(w)) + tail for kind in LOOP_KINDS
             for w in itertools.product(list(loop_letters(n, kind)),
                                        repeat=depth)]
 
 
 def run_loop_history(case):
-    kind, n, word = case
-    driver = LoopDriver(kind, n)
+    case = tuple(case)
+    if len(case) == 3:
+        case = case + ('identity',)
+    if len(case) != 4:
+        raise HarnessError(f'malformed case {case!r}')
+    kind, n, word, heq = case
+    driver = LoopDriver(kind, n, heq)
     letters = loop_letters(n, kind)
     ctx = driver.initial()
     driver.check(ctx)
@@ -1513,7 +1608,7 @@ def run_loop_history(case):
         driver.apply(ctx, letters[letter])
         driver.check(ctx)
     return {'calls': len(word), 'hits': dict(ctx.hits),
-            'key': (kind, n, word)}
+            'key': (kind, n, word) + (() if heq == 'identity' else (heq,))}
 
 
 def loop_drivers(tier):
@@ -1521,6 +1616,10 @@ def loop_drivers(tier):
     for kind in LOOP_KINDS:
         for n in (1, 2) if tier == 'quick' else (1, 2, 3):
             drv = LoopDriver(kind, n)
+            d[drv.name] = (drv, dict(max_depth=12))
+    for kind in LOOP_KINDS:
+        for n in LOOP_EQUAL_N[tier]:
+            drv = LoopDriver(kind, n, 'equal')
             d[drv.name] = (drv, dict(max_depth=12))
     return d
 
@@ -1670,6 +1769,32 @@ def run(tier, rep):
         '(overlap: C13 also asks for the fresh instance).  WorldCounting'
         'Handle overrides clear() only to note the call before running '
         'the real Handle.clear()',
+        'names: what may be a resource name is not restricted by '
+        'ResourceMap (DirectoryResourcePopulator stores file names with '
+        'their extension by default); explored are the name classes of '
+        'NAMES for the handle (not an identifier: dot, leading digit, '
+        'dash; leading double underscore with and without trailing one; a '
+        'Python keyword), a bystander of the other class in the same '
+        'sub-map, and one non-identifier sub-map name.  Attribute access '
+        'on the static map is spelled getattr() for them.  Names that '
+        'collide with attributes of StaticResourceMap itself (get, '
+        '_handle_names, __class__ ...), empty names and names holding the '
+        'split character are not explored; no world-file access (the '
+        'reference syntax "$res{a.b}" cannot spell a dot).  Oracle as for '
+        'r/k (load once per epoch, identical object on every path, cached '
+        'predicts the load), plus: the bystander never loads and stays '
+        'uncached',
+        'handles with value equality (loop parts ".../equal"): Handle does '
+        'not define __eq__, a subclass may (a dataclass handle); the '
+        'harness class is == to every other instance of its class and '
+        'hashes by the shared description (a dataclass with eq=True would '
+        'be unhashable: not explored).  Demanded is what is demanded of '
+        'identity-compared handles: clear_current clears the handle object '
+        'being left, clear_next the one entered, nothing else is cleared '
+        'or loaded.  Handles that are equal only to some of the others, '
+        'or whose __eq__ raises / returns non-bool, are not explored; the '
+        'map parts (one or two counting handles) use identity-compared '
+        'handles only',
         'world-file accesses: the harness clears the *world* handle before '
         'and after each of them (a world handle that kept its world would '
         'not resolve the reference again); what clear() does to a world is '
@@ -1717,7 +1842,20 @@ def run(tier, rep):
                      loop_request_to_cached=1,
                      loop_request_other_clear_current=1,
                      loop_request_leaves_cached=1,
-                     loop_request_self_after_outside_clear=1)
+                     loop_request_self_after_outside_clear=1,
+                     # handles that compare equal
+                     loop_equal_switch_clear_current=1,
+                     loop_equal_switch_clear_current_to_cached=1,
+                     loop_equal_switch_clear_next_keeps_left=1,
+                     loop_equal_request_clear_current=1,
+                     loop_equal_request_clear_current_to_cached=1,
+                     # odd names
+                     names_static_getattr_access=1,
+                     names_static_cache_hit=1,
+                     names_static_reload_after_clear=1,
+                     names_map_cache_hit=1,
+                     **{f'names_{n}_{fam}_access': 1 for n in ODD_NAMES
+                        for fam in ('static', 'map')})
     saved = sys.modules.get(MOD)
     _ensure_env()
     try:
@@ -1738,6 +1876,18 @@ def run(tier, rep):
             kernel.enumerate_cases(
                 run_loop_history, cases, rep, f'loop-histories/{n}',
                 params=dict(length=depth, handles=n, loops=list(LOOP_KINDS),
+                            letters={k: list(v) for k, v
+                                     in loop_letters(n, 'simple').items()},
+                            letters_per_loop={
+                                kind: ''.join(loop_letters(n, kind))
+                                for kind in LOOP_KINDS}),
+                chunk=max(200, len(cases) // 400))
+        for n, depth in LOOP_EQUAL_DEPTH[tier]:
+            cases = loop_history_cases(n, depth, 'equal')
+            kernel.enumerate_cases(
+                run_loop_history, cases, rep, f'loop-histories-equal/{n}',
+                params=dict(length=depth, handles=n, loops=list(LOOP_KINDS),
+                            handle_eq='equal',
                             letters={k: list(v) for k, v
                                      in loop_letters(n, 'simple').items()},
                             letters_per_loop={
